@@ -5,6 +5,7 @@ pub mod c10;
 pub mod c12;
 pub mod c13;
 pub mod c15;
+pub mod c17;
 
 use crate::rt::Prop;
 
@@ -17,6 +18,7 @@ pub fn lookup(id: &str) -> Option<&'static dyn Prop> {
         "C12" => Some(&c12::C12),
         "C13" => Some(&c13::C13),
         "C15" => Some(&c15::C15),
+        "C17" => Some(&c17::C17),
         _ => None,
     }
 }
